@@ -464,7 +464,13 @@ impl Formatter {
     };
     for el in node.elements.iter() {
       let el_str = self.section_element(el);
-      src = format!("{}{}", src, el_str);
+      if self.html {
+        src = format!("{}{}", src, el_str);
+      } else {
+        // Mechdown elements are separated by a blank line.
+        if !src.is_empty() { src.push('\n'); }
+        src = format!("{}{}\n", src, el_str.trim_end_matches('\n'));
+      }
     }
     let toc = if self.toc { "toc" } else { "" };
     let section_id = hash_str(&format!("section-{}",self.h2_num + 1));
